@@ -13,6 +13,9 @@ IntsAll == { <<0, 0, 0, 0, 0, 0, 0, 0>>, <<1, 0, 0, 0, 0, 0, 0, 0>>, <<0, 0, 0, 
              <<0, 0, 0, 0, 0, 0, 0, 128>>, <<255, 255, 255, 255, 255, 255, 255, 255>>,
              <<1, 2, 3, 4, 5, 6, 7, 8>>, <<0, 1, 0, 0, 0, 0, 0, 0>>, <<255, 255, 255, 255, 0, 0, 0, 0>> }
 FieldsAll == AllFields
+\* element lists whose serialisation crosses 1024 bytes (128 x 8, 64 x 16, 42.67 x 24) and 2048 bytes
+LongQuick    == {41, 42, 43, 64, 65, 128, 129}
+LongThorough == LongQuick \cup {63, 85, 86, 127, 171, 172, 256, 257}
 SelsQuick    == { <<0, 1>>, <<9, 1>>, <<18, 1>>, <<27, 1>>, <<3, 7>> }
 SelsThorough == { <<s, 1>> : s \in 0..37 } \cup { <<3, 7>>, <<1, 5>>, <<0, 11>>, <<2, 13>> }
 =============================================================================
